@@ -254,14 +254,14 @@ def call_contract(self, fc, recv, args, kwargs, line, label):
         for e, l in self.eng.invariants_of(recv.s.cls):
             self.assume(self.ev_spec(e, post_env))
     for e, l in fc.ensures_l:
+        if e.strip() == "False":
+            self.expect_dead = True        # the callee never returns normally (it always raises): the rest of this path is dead by design
         self.assume(self.ev_spec(e, post_env))
     return res
 
 
 def apply_modifies(self, fc, pre_env):
     E = _eng()
-    if not fc.modifies_l:
-        return
     whole, cells = set(), {}
     for loc in fc.modifies_l:
         self._mod_loc(loc, pre_env, whole, cells)
@@ -415,6 +415,10 @@ def isinstance_of(self, v, tnames):
         if not self.env.spec:
             if self.decide(opt_is_none(v.t)):
                 return z3.BoolVal(False)
+    if isinstance(s, UnionS):
+        pysort = {"int": INT, "float": REAL, "str": STR, "bool": BOOL}
+        alts = [pysort[t] for t in tnames if t in pysort and pysort[t] in s.alts]
+        return z3.Or(*[union_is(v.t, s, a) for a in alts]) if alts else z3.BoolVal(False)
     res = []
     for t in tnames:
         if t == "int":
@@ -705,6 +709,13 @@ def spec_call(self, n, env):
         self.assume(seq_len(r) == ite(nlen.t > 0, nlen.t, z3.IntVal(0)),
                     ops.forall([bv], seq_get(r, bv) == body.t, patterns=[seq_get(r, bv)]))
         return V(r, so)
+    if name in ("is_int", "is_str"):
+        v = self.ev(A[0], env)
+        return V(union_is(v.t, v.s, INT if name == "is_int" else STR), BOOL)
+    if name in ("as_int", "as_str"):
+        v = self.ev(A[0], env)
+        alt = INT if name == "as_int" else STR
+        return V(union_get(v.t, v.s, alt), alt)
     if name == "is_none":
         return V(ops.is_none(self.ev(A[0], env)), BOOL)
     if name == "some":          # value inside an Opt
@@ -777,11 +788,12 @@ def quantifier(self, n, env, is_forall):
     else:
         raise E.StaleContract("quantifier: expected (var, lo, hi, body) or (var, body)")
     pats = []
-    if "trigger" in kw:
-        tn = kw["trigger"]
-        tlist = tn.elts if isinstance(tn, (ast.Tuple, ast.List)) else [tn]
-        terms = [self.ev(t, sub).t for t in tlist]
-        pats = [z3.MultiPattern(*terms)] if len(terms) > 1 else terms
+    for kwname in ("trigger", "alt_trigger", "alt_trigger2"):      # alternatives: any one of them instantiates the quantifier
+        if kwname in kw:
+            tn = kw[kwname]
+            tlist = tn.elts if isinstance(tn, (ast.Tuple, ast.List)) else [tn]
+            terms = [self.ev(t, sub).t for t in tlist]
+            pats.append(z3.MultiPattern(*terms) if len(terms) > 1 else terms[0])
     if is_forall:
         b = z3.Implies(rng, body) if rng is not None else body
         return V(ops.forall([bv], b, patterns=pats), BOOL)
@@ -854,9 +866,8 @@ def sorted_call(self, n, env):
                 z3.ForAll([i], z3.Implies(z3.And(0 <= i, i < nlen),
                                           z3.And(0 <= perm(i), perm(i) < nlen, inv(perm(i)) == i, seq_get(R, i) == seq_get(S.t, perm(i)))),
                           patterns=[seq_get(R, i)]),
-                z3.ForAll([i], z3.Implies(z3.And(0 <= i, i < nlen),
-                                          z3.And(0 <= perm(i), perm(i) < nlen, inv(perm(i)) == i, seq_get(R, i) == seq_get(S.t, perm(i)))),
-                          patterns=[perm(i)]),
+                # (no second copy triggered by perm(i): together with the inverse axiom below it forms a matching loop
+                #  perm(i) -> inv(perm(i)) -> perm(inv(perm(i))) -> ... that made discharge times erratic)
                 z3.ForAll([j], z3.Implies(z3.And(0 <= j, j < nlen), z3.And(0 <= inv(j), inv(j) < nlen, perm(inv(j)) == j)),
                           patterns=[inv(j)]),
                 z3.ForAll([i, j], z3.Implies(z3.And(0 <= i, i < j, j < nlen),
